@@ -391,7 +391,17 @@ func (r *Run) Finish(c Coverage) {
 	newV := []string{}
 	knownMet := []string{}
 	for _, s := range sigs {
-		if f, ok := known[s]; ok {
+		f, ok := known[s]
+		if !ok {
+			// a finding may name a call site shared by several signatures: "prefix*"
+			for k, kf := range known {
+				if strings.HasSuffix(k, "*") && strings.HasPrefix(s, strings.TrimSuffix(k, "*")) {
+					f, ok = kf, true
+					break
+				}
+			}
+		}
+		if ok {
 			fmt.Printf("KNOWN-FINDING: property=%s %s -- %s\n", r.ID, s, f.Description)
 			knownMet = append(knownMet, s)
 			continue
@@ -584,10 +594,31 @@ func (r *Run) Watchdog(d time.Duration) {
 
 // Progress records the case about to run (index within the shard, description).
 func (r *Run) Progress(i int, desc string) {
-	if p := os.Getenv("VERIF_PROGRESS"); p != "" {
-		os.WriteFile(p, []byte(fmt.Sprintf("%d\n%s", i, desc)), 0o644)
+	if progressFile == nil {
+		p := os.Getenv("VERIF_PROGRESS")
+		if p == "" {
+			return
+		}
+		f, err := os.OpenFile(p, os.O_CREATE|os.O_WRONLY|os.O_TRUNC, 0o644)
+		if err != nil {
+			return
+		}
+		progressFile = f
 	}
+	// one fixed-size record rewritten in place: a single write per case
+	rec := fmt.Sprintf("%d\n%s", i, desc)
+	if len(rec) > 4000 {
+		rec = rec[:4000]
+	}
+	buf := make([]byte, 4096)
+	copy(buf, rec)
+	for j := len(rec); j < len(buf); j++ {
+		buf[j] = ' '
+	}
+	progressFile.WriteAt(buf, 0)
 }
+
+var progressFile *os.File
 
 // Skip is the case index the shard must resume at (0 on the first run).
 func (r *Run) Skip() int {
@@ -635,7 +666,7 @@ func (r *Run) SpawnTolerant(n int, arg string, onCrash func(desc string, stderrT
 				}
 				// the worker died: which case?
 				pd, _ := os.ReadFile(prog)
-				idx, desc, _ := strings.Cut(string(pd), "\n")
+				idx, desc, _ := strings.Cut(strings.TrimRight(string(pd), " "), "\n")
 				k, _ := strconv.Atoi(idx)
 				tail, _ := os.ReadFile(errPath)
 				if len(tail) > 1500 {
